@@ -186,12 +186,13 @@ pub fn portfolio(case_seed: u64, k: u32, pilot_steps: u32, st: bool) -> SchedSpe
     } else if k == 0 {
         SchedKind::Random { sticky: 0 }
     } else {
-        match r.below(12) {
+        match r.below(13) {
             0 => SchedKind::Random { sticky: 0 },
             1 => SchedKind::Random { sticky: 50 },
             2 => SchedKind::Random { sticky: 90 },
             3 => SchedKind::RoundRobin,
             10 => SchedKind::Stall { per_mille: 5, max_len: 300 },
+            12 => SchedKind::Stall { per_mille: 2, max_len: 4000 },
             11 => SchedKind::Stall { per_mille: 25, max_len: 4000 },
             n => SchedKind::Pct { depth: 1 + ((n - 4) % 5) as u8 + (r.below(2) as u8), est_steps: pilot_steps.max(8) },
         }
